@@ -29,7 +29,7 @@ ASSUMPTIONS = [
 ]
 CONFIG = {
     "quick": {"examples": 480, "shards": 16, "shrink_s": 40, "time_budget_s": 240},
-    "thorough": {"examples": 8000, "shards": 16, "shrink_s": 200, "time_budget_s": 3000},
+    "thorough": {"examples": 5000, "shards": 16, "shrink_s": 200, "time_budget_s": 1500},
 }
 EXHAUSTIVE = {"thorough": "all (g,h) in B_3 x B_3 (2304 pairs) x 6 fixed shapes x (k,p) in {0,1}x{0,1}, array-level entry"}
 
